@@ -6,5 +6,6 @@ CONSTANTS
   StrLen = 0
   FullLen = 2
   RepLen = 4
+  Big = {}
 INVARIANTS Total DecodedIsEncodable EmitBytes
 CHECK_DEADLOCK FALSE
